@@ -38,6 +38,7 @@ type caseCfg struct {
 	maxCalls       int
 	pElClose       int
 	pCross         int
+	pSweepShutdown int
 	crossCloseOnly bool
 	scenario       string
 	client         bool
@@ -88,6 +89,7 @@ func genCfg(rnd *tr.Rand, focus string) *caseCfg {
 	c.maxCalls = rnd.Pick([]int{0, 2, 4})
 	c.pElClose = rnd.Pick([]int{0, 0, 2})
 	c.pCross = rnd.Pick([]int{0, 0, 6})
+	c.pSweepShutdown = rnd.Pick([]int{0, 0, 40})
 	c.writeSizes = []int{0, 1, 10, 1000, 5000}
 	if c.sndbuf > 0 {
 		c.writeSizes = append(c.writeSizes, 70000, 300000)
@@ -113,6 +115,13 @@ func genCfg(rnd *tr.Rand, focus string) *caseCfg {
 			c.bufcap = 1024 // level-triggered: both connections stay readable, so they share epoll_wait batches
 		case "queued-write-after-close":
 			c.et, c.chunk, c.sndbuf = true, 1024, 4096
+		case "writev-eagain":
+			c.inject = []inject{{name: "wr", index: 0, kind: "eagain", cid: -1}}
+		case "close-drain-error":
+			c.sndbuf = 4096
+			c.inject = []inject{{name: "wr", index: 2, kind: "epipe", cid: -1}}
+		case "shutdown-sweep":
+			c.maxConns = 3
 		}
 		return c
 	}
@@ -237,7 +246,8 @@ func runCase(w *tr.Writer, seed uint64, idx int, focus string) {
 	}
 	rec := newRecorder()
 	rec.injects = cfg.inject
-	h := &handler{rec: rec, rnd: tr.NewRand(seed*7919 + uint64(idx)), byC: map[gnet.Conn]*connInfo{}, cfg: cfg, w: w}
+	h := &handler{rec: rec, rnd: tr.NewRand(seed*7919 + uint64(idx)), byC: map[gnet.Conn]*connInfo{}, cfg: cfg, w: w,
+		inTraffic: make(chan struct{}, 1), release: make(chan struct{})}
 	vunix.SetHooks(rec)
 	defer vunix.SetHooks(nil)
 
@@ -419,6 +429,80 @@ func runCase(w *tr.Writer, seed uint64, idx int, focus string) {
 			quiet()
 			if got == 0 && round > 3 {
 				break
+			}
+		}
+		if cfg.scenario == "stale-requests" && len(peers) > 0 {
+			// connection A was closed by its handler; B is accepted and reuses A's descriptor number;
+			// then late requests for A arrive from another goroutine
+			a := h.byCid(peers[0].cid)
+			seq := rec.seq()
+			// make B's accept return A's old number: a placeholder takes the free number while B's
+			// client socket is created, and is released while the loop is held just before accept(2)
+			gate := make(chan struct{})
+			rec.mu.Lock()
+			rec.acceptGate = gate
+			rec.mu.Unlock()
+			dummy, _ := os.Open("/dev/null")
+			go func() {
+				time.Sleep(20 * time.Millisecond)
+				if dummy != nil {
+					dummy.Close()
+				}
+				rec.mu.Lock()
+				rec.acceptGate = nil
+				rec.mu.Unlock()
+				close(gate)
+			}()
+			if c, err := net.Dial(dialNet, dialAddr); err == nil {
+				pb := &peer{conn: c, cid: -1}
+				peers = append(peers, pb)
+				woken(seq, 2*time.Second)
+				quiet()
+				rec.mu.Lock()
+				pb.cid = rec.nextCid - 1
+				rec.mu.Unlock()
+			}
+			if a != nil && a.c != nil {
+				for _, kind := range []string{"wake", "write", "close", "wake"} {
+					quiet()
+					seq = rec.seq()
+					switch kind {
+					case "wake":
+						rec.Op(tr.L("async", "wake", tr.I(a.cid), "1"))
+						a.c.Wake(h.acb("wake", a, true, nil))
+					case "write":
+						data := []byte("late-data")
+						rec.Op(tr.L("async", "write", tr.I(a.cid), tr.X(data), "1"))
+						a.c.AsyncWrite(data, h.acb("write", a, true, data))
+					case "close":
+						rec.Op(tr.L("async", "close", tr.I(a.cid), "1"))
+						a.c.CloseWithCallback(h.acb("close", a, true, nil))
+					}
+					woken(seq, time.Second)
+				}
+				quiet()
+			}
+		}
+		if cfg.scenario == "async-flood" && len(peers) > 0 {
+			// 1500 asynchronous writes are issued while the loop is busy inside OnTraffic
+			if ci := h.byCid(peers[0].cid); ci != nil && ci.c != nil {
+				select {
+				case <-h.inTraffic:
+				case <-time.After(time.Second):
+				}
+				for i := 0; i < 1500; i++ {
+					data := []byte(fmt.Sprintf("%07d ", i))
+					rec.Op(tr.L("async", "write", tr.I(ci.cid), tr.X(data), "1"))
+					ci.c.AsyncWrite(data, h.acb("write", ci, true, data))
+				}
+				close(h.release)
+				quiet()
+				for round := 0; round < 50; round++ {
+					if recvSome(peers[0], 1<<20, 5*time.Millisecond) == 0 && round > 3 {
+						break
+					}
+				}
+				quiet()
 			}
 		}
 		w.Hist("scenario-" + cfg.scenario)
@@ -677,6 +761,19 @@ func runCase(w *tr.Writer, seed uint64, idx int, focus string) {
 			recvSome(p, 1<<20, 2*time.Millisecond)
 			p.conn.Close()
 		}
+	}
+	// After Run has returned the framework owns no descriptor any more: requests on stale
+	// connection handles must not touch any (C07).  The ledger is still watching.
+	h.mu.Lock()
+	stale := append([]*connInfo(nil), h.all...)
+	h.mu.Unlock()
+	for i, ci := range stale {
+		if ci.c == nil || ci.udp || i > 3 {
+			continue
+		}
+		_ = ci.c.Wake(nil)
+		_ = ci.c.Close()
+		_ = ci.c.AsyncWrite([]byte("late"), nil)
 	}
 	finalOracles(rec, h, cfg, peers)
 
